@@ -1,7 +1,8 @@
 (* C19 as an executable checker over the end state observed on the implementation:
    which rows the sync sink saw (in order), the counters, the capacity. Returns the first violated
-   clause (None = the observation satisfies the property). The same clauses are proved of every
-   reachable state of Model/Ingest.v in Proofs/IngestProofs.v (ig_chk_model_sound). *)
+   clause (None = the observation satisfies the property). The clauses are the boolean forms of the Props
+   proved of every reachable model state in Proofs/IngestProofs.v and Proofs/IngestOrder.v (reflection
+   lemmas ig_nodupb_ok, ig_orderedb_ok; the arithmetic clauses are the theorems' equations verbatim). *)
 From Coq Require Import List Arith Bool PeanoNat.
 From SV Require Export Model.Ingest.
 Import ListNotations.
